@@ -177,7 +177,13 @@ impl TcpChannelTask {
                 if let Err(err) = stream.set_nodelay(true) {
                     tracing::warn!("unable to enable TCP_NODELAY: {}", err);
                 }
-                match self.connection_handler.handle(stream, &self.host).await {
+                // a peer that stalls in the (TLS) handshake must not keep the task from failing
+                // requests or from honouring disable / shutdown
+                let result = tokio::select! {
+                    res = self.connection_handler.handle(stream, &self.host) => res,
+                    change = self.client_loop.fail_requests() => return Err(change),
+                };
+                match result {
                     Err(err) => self.handle_failed_connection(err).await,
                     Ok(phys) => self.run_connection(phys).await,
                 }
